@@ -563,13 +563,20 @@ def _objs():
     for k in range(9):
         i += 1
         out.append(('O', i))   # distinct menagerie objects
+    # postponed annotations that cannot be evaluated (upgraded-annotation token >= 1000, one per object)
+    for d in (0, 1):
+        i += 1
+        out.append(('U', i, d, 1000 + i))
+    i += 1
+    out.append(('u', i, 1, 1000 + i))
     return out
 
 
 def eq(tier, seed, ci, nc):
     objs = _objs()
     # second objects carrying the same data under another identity
-    twins = [(o[0], o[1] + 100) + tuple(o[2:]) for o in objs if o[0] != 'O']
+    twins = [(o[0], o[1] + 100) + tuple(o[2:]) if not (len(o) > 3 and o[3] >= 1000) else (o[0], o[1] + 100, o[2], o[3] + 100)
+             for o in objs if o[0] != 'O']
 
     def gen():
         for a in objs:
@@ -879,7 +886,7 @@ def wrap(tier, seed, ci, nc, count=600):
     rng = _rng(seed, 'wrap', ci)
     funcs = [s for s in U('abc', 2) if not any(p[1] in ('vp', 'vk') for p in s)] + \
             [s for s in U('ab', 2)]
-    owns = [(), ('d',), ('d', 'e')]
+    owns = [(), ('d',), ('d', 'e'), ('q',), ('q', 'd')]
     for _ in range(count // nc):
         kind = rng.choice(['decorator', 'decorator', 'wrapper_decorator'])
         depth = rng.choice([1, 1, 2, 3])
@@ -889,14 +896,15 @@ def wrap(tier, seed, ci, nc, count=600):
             own = tuple('%s%d' % (n, i) for n in rng.choice(owns))
             own_list.append(own)
         fps = rng.choice(funcs)
-        placement = rng.choice(['function', 'function', 'method', 'staticmethod'])
+        placement = rng.choice(['function', 'function_peek', 'method', 'staticmethod'])
         if any(p[1] == 'po' for p in fps) and placement == 'method':
             placement = 'function'
         yield ('rt:wrap', kind, tuple(own_list), fps, placement)
     for _ in range(count // nc // 2):
         k = rng.choice([1, 2, 2, 3])
         fl = tuple(rng.choice([s for s in U('ab', 2)]) for _ in range(k))
-        yield ('rt:combination', fl)
+        first = rng.choice(['arg', 'arg', 'value'])
+        yield ('rt:combination', fl, (first,) * k)
 
 
 STREAMS['wrap'] = wrap
